@@ -467,6 +467,9 @@ func runC17(c *Ctx) {
 	}
 	if c.Check(len(envCmdFns) == 1, r4, "envcmds-fn", "", "env_cmds step found", fmt.Sprintf("%d functions evaluate env_cmds", len(envCmdFns))) {
 		ec := envCmdFns[0]
+		if ex := EarlyLoopExits(p, ec, false); true {
+			c.Check(len(ex) == 0, r4, "envcmds-exhaustive", FirstPos(p, ec), "every env command is evaluated", "the env_cmds step leaves its iteration early ("+strings.Join(ex, ", ")+"), e.g. at the first failing command: the remaining variables are missing from every process's environment (which ones depends on map order)")
+		}
 		c.Touch(ec)
 		for _, j := range p.FuncsWith(MethodOnField("waitGroup.Wait", s.FWaitGroup, wgMethod(p, "Wait"))) {
 			spawns := DirectSites(j, CallOfFn("Spawn", s.Spawns...))
